@@ -2,7 +2,10 @@
 
 The function is re-translated from the CURRENT source on every run of the C01 / C02 / C17 checks; Translated/RankChopSrcP.v then proves that the translated
 function equals the hand-written model (Model/RankChop.v) for all inputs.  The translation works on the squared singular values q = |s|^2, thr2 = eps^2 and
-pos = (eps > 0); it knows a small vocabulary of numpy idioms (Translated/NumpyPrims.v gives their meaning) and refuses everything else."""
+pos = (eps > 0); it knows a small vocabulary of numpy idioms (Translated/NumpyPrims.v gives their meaning) and refuses everything else.
+`s = s / smax` and `eps = eps / smax` with smax = np.max(np.abs(s)) - accepted only after the early return on smax == 0, so that smax > 0 - become a
+multiplication of q / thr2 by a positive parameter c (= 1 / smax^2; the theorem holds for EVERY c > 0, whichever of the two has been rescaled is
+tracked separately, so a rescaling of only one of them yields a definition that is not provably equal to the model)."""
 import ast, os
 
 class Unsupported(Exception):
@@ -27,6 +30,7 @@ def expr(node, env):
     if isinstance(node, ast.Name):
         if node.id == "s": return ("svec", None)
         if node.id == "eps": return ("eps", None)
+        if env.get(node.id) == "smax": return ("smax", None)
         if node.id in env: return (env[node.id], "v_" + node.id)
         raise Unsupported("unknown name %s" % node.id)
     if isinstance(node, ast.Constant):
@@ -49,6 +53,9 @@ def expr(node, env):
         if len(node.keywords) or len(node.args) != 1: raise Unsupported("call with keywords / several arguments")
         k, t = expr(node.args[0], env)
         if _is_np(node.func, "abs") and k in ("svec", "svec_rev"): return (k, None)
+        if _is_np(node.func, "max") and k == "svec":
+            if env.get("__s_scaled"): raise Unsupported("np.max(np.abs(s)) of the rescaled s")
+            return ("smax", None)
         if _is_np(node.func, "cumsum") and k == "qvec": return ("qvec", "(np_cumsum %s)" % t)
         if _is_np(node.func, "linalg", "norm") and k == "svec": return ("norm", None)
         if _is_np(node.func, "argmax") and k == "boolvec": return ("nat", "(np_argmax %s)" % t)
@@ -57,9 +64,10 @@ def expr(node, env):
         lk, lt = expr(node.left, env)
         if isinstance(node.op, ast.Pow):
             if not (isinstance(node.right, ast.Constant) and node.right.value == 2 and isinstance(node.right.value, int)): raise Unsupported("power other than 2")
-            if lk == "svec": return ("qvec", "q")
-            if lk == "svec_rev": return ("qvec", "(np_rev q)")
-            if lk == "eps": return ("T", "thr2")
+            qq = "(map (omul c) q)" if env.get("__s_scaled") else "q"
+            if lk == "svec": return ("qvec", qq)
+            if lk == "svec_rev": return ("qvec", "(np_rev %s)" % qq)
+            if lk == "eps": return ("T", "(omul c thr2)" if env.get("__eps_scaled") else "thr2")
             raise Unsupported("square of a %s" % lk)
         rk, rt = expr(node.right, env)
         if isinstance(node.op, ast.Sub) and lk == "nat" and rk == "nat": return ("nat", "(%s - %s)" % (lt, rt))
@@ -68,6 +76,7 @@ def expr(node, env):
         if len(node.ops) != 1: raise Unsupported("chained comparison")
         op = node.ops[0]; lk, lt = expr(node.left, env); rk, rt = expr(node.comparators[0], env)
         if lk == "norm" and rk == "zero" and isinstance(op, ast.Eq): return ("bool", "(oleb (sumT q) oz)")       # ||s|| == 0  <=>  sum |s_i|^2 <= 0
+        if lk == "smax" and rk == "zero" and isinstance(op, ast.Eq): return ("smax_is_zero", "(np_all_zero q)")   # max |s_i| == 0  <=>  every |s_i|^2 <= 0
         if lk == "eps" and rk == "zero" and isinstance(op, ast.LtE): return ("bool", "(negb pos)")
         if lk == "qvec" and rk == "T" and isinstance(op, ast.Lt): return ("boolvec", "(np_lt_vec %s %s)" % (lt, rt))
         if lk == "nat" and rk == "nat":
@@ -100,23 +109,38 @@ def block(stmts, env):
     if isinstance(st, ast.If):
         if st.orelse or len(st.body) != 1 or not isinstance(st.body[0], ast.Return): raise Unsupported("if statement other than an early return")
         ck, ct = expr(st.test, env); vk, vt = expr(st.body[0].value, env)
-        if ck != "bool" or vk != "nat": raise Unsupported("early return over %s / %s" % (ck, vk))
-        return "if %s then %s\n  else %s" % (ct, vt, block(rest, dict(env)))
+        if ck not in ("bool", "smax_is_zero") or vk != "nat": raise Unsupported("early return over %s / %s" % (ck, vk))
+        env2 = dict(env)
+        if ck == "smax_is_zero" and not env.get("__s_scaled"): env2["__smax_pos"] = True      # below this point max |s_i| > 0
+        return "if %s then %s\n  else %s" % (ct, vt, block(rest, env2))
     if isinstance(st, ast.Assign):
         if len(st.targets) != 1 or not isinstance(st.targets[0], ast.Name): raise Unsupported("assignment target")
+        tgt = st.targets[0].id
+        if tgt in ("s", "eps"):
+            # the only re-binding of an argument that is understood: division by smax, known to be positive
+            v = st.value
+            if not (isinstance(v, ast.BinOp) and isinstance(v.op, ast.Div) and isinstance(v.left, ast.Name) and v.left.id == tgt): raise Unsupported("re-binding of %s" % tgt)
+            if expr(v.right, env)[0] != "smax": raise Unsupported("division of %s by something other than max|s|" % tgt)
+            if not env.get("__smax_pos"): raise Unsupported("division by max|s| before the early return on max|s| == 0")
+            if env.get("__%s_scaled" % tgt): raise Unsupported("%s rescaled twice" % tgt)
+            env2 = dict(env); env2["__%s_scaled" % tgt] = True
+            return block(rest, env2)
         k, t = expr(st.value, env)
+        if k == "smax":
+            env2 = dict(env); env2[tgt] = "smax"
+            return block(rest, env2)
         if k not in ("nat", "qvec", "T", "bool", "boolvec"): raise Unsupported("assignment of a %s" % k)
         env2 = dict(env); env2[st.targets[0].id] = k
         return "let v_%s := %s in\n  %s" % (st.targets[0].id, t, block(rest, env2))
     raise Unsupported("statement %s" % type(st).__name__)
 
-HEADER = """(* GENERATED by harness/translate.py from %s (function rank_chop) - do not edit.  q = |s|^2 elementwise, thr2 = eps^2, pos = (eps > 0). *)
+HEADER = """(* GENERATED by harness/translate.py from %s (function rank_chop) - do not edit.  q = |s|^2 elementwise, thr2 = eps^2, pos = (eps > 0), c = 1 / max|s|^2 (any positive number). *)
 From Coq Require Import List Arith Bool.
 From TT Require Import OrdRing RankChop NumpyPrims.
 Import ListNotations.
 Section Src.
 Context {T : Type} {OO : OrdOps T}.
-Definition rank_chop_src (q : list T) (pos : bool) (thr2 : T) : nat :=
+Definition rank_chop_src (c : T) (q : list T) (pos : bool) (thr2 : T) : nat :=
   %s.
 End Src.
 """
